@@ -240,12 +240,28 @@ func split(p string) []string {
 	return strings.Split(p[1:], "/")
 }
 
+// nameCheck mirrors the kernel limits NAME_MAX (255) and PATH_MAX (4096).
+func nameCheck(p string) error {
+	if len(p) >= 4096 {
+		return syscall.ENAMETOOLONG
+	}
+	for _, c := range split(p) {
+		if len(c) > 255 {
+			return syscall.ENAMETOOLONG
+		}
+	}
+	return nil
+}
+
 func perr(op, path string, e error) error { return &fs.PathError{Op: op, Path: path, Err: e} }
 
 // lookup walks to path; returns node or errno.
 func (f *FS) lookup(p string) (*node, error) {
 	if p == "" {
 		return nil, syscall.ENOENT
+	}
+	if err := nameCheck(p); err != nil {
+		return nil, err
 	}
 	n := f.root
 	for _, c := range split(p) {
@@ -262,6 +278,9 @@ func (f *FS) lookup(p string) (*node, error) {
 }
 
 func (f *FS) parent(p string) (*node, string, error) {
+	if err := nameCheck(p); err != nil {
+		return nil, "", err
+	}
 	parts := split(p)
 	if len(parts) == 0 {
 		return nil, "", syscall.EEXIST
